@@ -18,7 +18,7 @@ func VH_C17_modify_after_reload() {
 	// before the flush: the first OPS1 keys of the key set, each with a short or long value
 	n := sym.Param("OPS1", 3)
 	for k := 0; k < n; k++ {
-		v := vhC17Value("pre_v")
+		v := vhC17ValueP("pre_v", "LONGV2")
 		_, err := m.Set(vhC17Keys[k], v)
 		sym.Assert(err == nil, "Set succeeds")
 		ref[k] = v
